@@ -2,12 +2,16 @@
 
 from __future__ import annotations
 
+import operator
+from functools import reduce
 from typing import TYPE_CHECKING, cast
 
 import sympy
-from sympy.printing import julia_code, rust_code
+from sympy.printing import julia_code
 from sympy.printing.jscode import JavascriptCodePrinter
+from sympy.printing.precedence import PRECEDENCE
 from sympy.printing.pycode import PythonCodePrinter
+from sympy.printing.rust import RustCodePrinter
 
 from mxlpy.meta.source_tools import fn_to_sympy
 from mxlpy.types import Derived
@@ -60,6 +64,33 @@ class _JsPrinter(JavascriptCodePrinter):
         return f"((({dividend} % {divisor}) + {divisor}) % {divisor})"
 
 
+class _RustPrinter(RustCodePrinter):
+    """Rust printer for code in which every quantity is an f64."""
+
+    def _print_TypeCast(self, expr: sympy.Expr) -> str:
+        # sympy wraps the factors of a product that contains a float in implicit casts
+        # and prints what is inside without parentheses: 2.0*y*(k - x) -> 2.0*y*k - x
+        if not expr.explicit:
+            return cast(str, self.parenthesize(expr.expr, PRECEDENCE["Mul"], strict=True))
+        return cast(str, super()._print_TypeCast(expr))
+
+    def _print_Mul(self, expr: sympy.Mul) -> str:
+        # `2*x` does not type-check for an f64 x: integer factors are written as floats
+        expr = reduce(
+            operator.mul,
+            (sympy.Float(arg) if arg.is_Integer and arg != -1 else arg for arg in expr.args),
+        )
+        return cast(str, super()._print_Mul(expr))
+
+    def _print_Add(self, expr: sympy.Add, order: str | None = None) -> str:
+        # likewise `x + 1`
+        expr = reduce(
+            operator.add,
+            (sympy.Float(arg) if arg.is_Integer else arg for arg in expr.args),
+        )
+        return cast(str, super()._print_Add(expr, order))
+
+
 def _pycode(expr: sympy.Expr, **settings: bool) -> str:
     """Convert a sympy expression to Python code."""
     return cast(str, _PythonPrinter(settings).doprint(expr))
@@ -102,7 +133,9 @@ def sympy_to_inline_js(expr: sympy.Expr) -> str:
 
 def sympy_to_inline_rust(expr: sympy.Expr) -> str:
     """Create rust code from sympy expression."""
-    return cast(str, rust_code(expr, full_prec=False))
+    if expr.is_Integer:
+        expr = sympy.Float(expr)
+    return cast(str, _RustPrinter({"full_prec": False}).doprint(expr))
 
 
 def sympy_to_inline_julia(expr: sympy.Expr) -> str:
